@@ -89,6 +89,10 @@ type c19Case struct {
 	// Decoy: before the call under test the same function is called with the same text but other flags / zones
 	// (its result is ignored): a call's result is a function of its own arguments only.
 	Decoy bool `json:"decoy,omitempty"`
+	// EmptyLayout (Func 1 only): dateTimeLayoutToRFC3339 is called with an empty layout - the smart parser reads the text,
+	// exactly as in dateTimeToRFC3339, and the layoutTZ flag (EmptyLayoutFlag: "", "true" or "false") describes nothing.
+	EmptyLayout     bool   `json:"empty_layout,omitempty"`
+	EmptyLayoutFlag string `json:"empty_layout_flag,omitempty"`
 	Mut   int  `json:"mut"`
 	MutPos   int    `json:"mut_pos"`
 }
@@ -303,7 +307,19 @@ func genC19(t *rapid.T) c19Case {
 	}
 	c.Mut = rapid.IntRange(0, 6).Draw(t, "mut")
 	c.MutPos = rapid.IntRange(0, 40).Draw(t, "mutPos")
+	if c.Func == 1 && rapid.IntRange(0, 5).Draw(t, "emptyLayout") == 0 {
+		c.EmptyLayout = true
+		c.EmptyLayoutFlag = rapid.SampledFrom([]string{"", "true", "false"}).Draw(t, "emptyLayoutFlag")
+	}
 	return c
+}
+
+// c19OtherZone returns a zone different from z (decoy calls).
+func c19OtherZone(z string) string {
+	if z == "Asia/Tokyo" {
+		return "America/Denver"
+	}
+	return "Asia/Tokyo"
 }
 
 const gapMarker = "\x00gap"
@@ -655,12 +671,20 @@ func checkC19(c c19Case) obs.Result {
 		var out string
 		var err error
 		layoutHasTZ := false
-		if c.Func == 0 {
+		if c.Func == 0 || c.EmptyLayout {
 			if c.Decoy {
+				// neighbours of the call under test: everything changed, and each argument changed alone
 				_, _ = customfuncs.DateTimeToRFC3339(nil, in, "Asia/Tokyo", "America/Denver")
 				_, _ = customfuncs.DateTimeToRFC3339(nil, in, "", "")
+				_, _ = customfuncs.DateTimeToRFC3339(nil, in, c19OtherZone(c.FromTZ), c.ToTZ)
+				_, _ = customfuncs.DateTimeToRFC3339(nil, in, c.FromTZ, c19OtherZone(c.ToTZ))
 			}
-			out, err = customfuncs.DateTimeToRFC3339(nil, in, c.FromTZ, c.ToTZ)
+			if c.EmptyLayout {
+				classes = append(classes, "empty-layout")
+				out, err = customfuncs.DateTimeLayoutToRFC3339(nil, in, "", c.EmptyLayoutFlag, c.FromTZ, c.ToTZ)
+			} else {
+				out, err = customfuncs.DateTimeToRFC3339(nil, in, c.FromTZ, c.ToTZ)
+			}
 		} else {
 			L := c19Layouts[c.Layout]
 			layoutHasTZ = L.hasTZ
@@ -697,11 +721,16 @@ func checkC19(c c19Case) obs.Result {
 			if c.Decoy {
 				// same text and layout, the opposite layoutTZ flag and other zones
 				_, _ = customfuncs.DateTimeLayoutToRFC3339(nil, in, L.layout, strconv.FormatBool(!L.hasTZ), "Asia/Tokyo", "America/Denver")
+				// each argument changed alone (a memo keyed by only some of the arguments answers one of these for the other)
+				_, _ = customfuncs.DateTimeLayoutToRFC3339(nil, in, L.layout, strconv.FormatBool(!L.hasTZ), c.FromTZ, c.ToTZ)
+				_, _ = customfuncs.DateTimeLayoutToRFC3339(nil, in, L.layout, strconv.FormatBool(L.hasTZ), c19OtherZone(c.FromTZ), c.ToTZ)
+				_, _ = customfuncs.DateTimeLayoutToRFC3339(nil, in, L.layout, strconv.FormatBool(L.hasTZ), c.FromTZ, c19OtherZone(c.ToTZ))
+				_, _ = customfuncs.DateTimeLayoutToRFC3339(nil, in, "", strconv.FormatBool(L.hasTZ), c.FromTZ, c.ToTZ)
 			}
 			out, err = customfuncs.DateTimeLayoutToRFC3339(nil, in, L.layout, strconv.FormatBool(L.hasTZ), c.FromTZ, c.ToTZ)
 		}
 		if err != nil {
-			if obs.KnownOpen("c19-smartparse-4digit-fraction-pm") && c.Func == 0 && c.TimeFmt == 2 && c.Frac == 4 && c.AMPM == 1 &&
+			if obs.KnownOpen("c19-smartparse-4digit-fraction-pm") && (c.Func == 0 || c.EmptyLayout) && c.TimeFmt == 2 && c.Frac == 4 && c.AMPM == 1 &&
 				strings.Contains(in, " PM") {
 				return obs.Result{Known: "c19-smartparse-4digit-fraction-pm", Classes: classes}
 			}
@@ -774,6 +803,12 @@ func checkC19(c c19Case) obs.Result {
 		if c.Decoy {
 			_, _ = customfuncs.DateTimeToEpoch(nil, in, "Asia/Tokyo", "SECOND")
 			_, _ = customfuncs.DateTimeToEpoch(nil, in, "", "MILLISECOND")
+			_, _ = customfuncs.DateTimeToEpoch(nil, in, c19OtherZone(cc.FromTZ), cc.Unit)
+			other := "SECOND"
+			if cc.Unit == "SECOND" {
+				other = "MILLISECOND"
+			}
+			_, _ = customfuncs.DateTimeToEpoch(nil, in, cc.FromTZ, other)
 		}
 		ep, err := customfuncs.DateTimeToEpoch(nil, in, cc.FromTZ, cc.Unit)
 		if err != nil {
@@ -830,6 +865,15 @@ func checkC19(c c19Case) obs.Result {
 			if outLoc = locOf(c.ToTZ); outLoc == nil {
 				return obs.Result{Excluded: "zone-not-loadable"}
 			}
+		}
+		if c.Decoy {
+			other := "SECOND"
+			if c.Unit == "SECOND" {
+				other = "MILLISECOND"
+			}
+			_, _ = customfuncs.EpochToDateTimeRFC3339(nil, strconv.FormatInt(n, 10), other, tzArgs...)
+			_, _ = customfuncs.EpochToDateTimeRFC3339(nil, strconv.FormatInt(n, 10), c.Unit, c19OtherZone(c.ToTZ))
+			_, _ = customfuncs.EpochToDateTimeRFC3339(nil, strconv.FormatInt(n, 10), c.Unit)
 		}
 		out, err := customfuncs.EpochToDateTimeRFC3339(nil, strconv.FormatInt(n, 10), c.Unit, tzArgs...)
 		if err != nil {
